@@ -318,9 +318,22 @@ def symbolic_tree(res, prog):
     return tree, it
 
 
+def _has_complex_literal(pr):
+    if isinstance(pr, list):
+        if len(pr) == 3 and pr[0] == "n" and "complex" in str(pr[1]):
+            return True
+        return any(_has_complex_literal(c) for c in pr)
+    return False
+
+
 def _ill_conditioned(prog, env, v):
     """Shadow run with float literals taken as exact rationals: does the plain float
     result *v* have anything to do with the program's exact value?"""
+    if abs(v) >= 1e12:
+        # operands and constants are small: a float of this size that the other side does
+        # not reproduce is the reciprocal of cancellation noise (the shadow run below
+        # cannot be exact once an irrational power took part)
+        return True
     try:
         ve = Interp(False, env, exact=True).run(prog)
     except RecursionError:
@@ -359,6 +372,20 @@ def compare_envs(res, prog, tree, env_specs, exact_mode=False):
             continue
         res.compared()
         small = {k: v_ for k, v_ in env_spec.items() if k in "xyzkwabc"}
+        if isinstance(v, (complex, np.complexfloating)) and not _has_complex_literal(prog):
+            # a negative base under a fractional power: which of the two conjugate
+            # branches comes out depends on how the exponent was spelled (x**-1.5 or
+            # 1/x**1.5) - outside the domain of real programs
+            res.label("complex-from-real-operands")
+            continue
+        if ref[0] == "err" and isinstance(v, float) and (
+                {n for n, _ in ref[1]} <= {"ZeroDivisionError"}
+                or _ill_conditioned(prog, env, v)):
+            # an exact zero on one side, rounding noise on the other (a spliced sum is
+            # added in another grouping): the signature of cancellation in inexact
+            # arithmetic; with exact operands the same defect would still be reported
+            res.label("ill-conditioned-float-environment")
+            continue
         if ref[0] == "err":
             res.fail("tree-raises-where-plain-defined",
                      f"plain value {describe(v)}, tree {tree!r} raises "
